@@ -1467,7 +1467,11 @@ func registerReflectModel(e *Engine) {
 		}
 		return &RVal{Kind: rt.Kind, Typ: rt, Val: &FuncV{Fn: fn, Recv: recv}}
 	})
-	vm("Call", func(st *State, v *RVal, a []Value) Value {
+	var callModel func(st *State, v *RVal, a []Value, spread bool) Value
+	vm("Call", func(st *State, v *RVal, a []Value) Value { return callModel(st, v, a, false) })
+	// CallSlice: the last argument is the variadic slice itself
+	vm("CallSlice", func(st *State, v *RVal, a []Value) Value { return callModel(st, v, a, true) })
+	callModel = func(st *State, v *RVal, a []Value, spread bool) Value {
 		fv, ok := st.rpayload(v).(*FuncV)
 		if !ok {
 			st.rpanic("reflect: call of reflect.Value.Call on %s Value", rkNames[v.Kind])
@@ -1512,7 +1516,7 @@ func registerReflectModel(e *Engine) {
 			}
 			plain = append(plain, pv)
 		}
-		if sig := fv.Fn.Signature; sig.Variadic() {
+		if sig := fv.Fn.Signature; sig.Variadic() && !spread {
 			// pack the trailing arguments into the variadic slice
 			nfix := sig.Params().Len() - 1
 			if len(args) < nfix {
@@ -1562,7 +1566,7 @@ func registerReflectModel(e *Engine) {
 		}
 		o := st.newObject(nil, "callresults", &ArrayV{E: outs})
 		return &SliceV{Obj: o, Len: len(outs), Cap: len(outs)}
-	})
+	}
 }
 
 // isMakeFuncBody: a function of type func([]reflect.Value) []reflect.Value.
